@@ -50,7 +50,7 @@ def run(ctx):
     ce = ConstEval(prog)
     cc = prog.func("iodata.convert.convert_conventions")
     mb_cls = prog.cls("iodata.basis.MolecularBasis")
-    ctx.clauses_decided = ["R1 conventions applied (index, then scale)", "R2 target-table agreement", "R3 basis coherence", "R4 scale coherence", "R5 density matrices converted", "R6 prepare_dump guard matrix", "R7 written numbers are readable", "R8 Molden pure/Cartesian tags", "R9 convention application evaluated on symbols", "R10 integer count fields rounded", "R11 segmentation semantics", "R12 Molekel centre separators (evaluated)", "R13 WFX spin labels (evaluated)", "R14 Molekel orbital blocks (evaluated)"]
+    ctx.clauses_decided = ["R1 conventions applied (index, then scale)", "R2 target-table agreement", "R3 basis coherence", "R4 scale coherence", "R5 density matrices converted", "R6 prepare_dump guard matrix", "R7 written numbers are readable", "R8 Molden pure/Cartesian tags", "R9 convention application evaluated on symbols", "R10 integer count fields rounded", "R11 segmentation semantics", "R12 Molekel centre separators (evaluated)", "R13 WFX spin labels (evaluated)", "R14 Molekel orbital blocks (evaluated)", "R15 Molden [MO] section (evaluated)", "R16 WFN orbital sections (evaluated)"]
     ctx.clauses_declined = ["equality of orbital values / occupations / energies / densities to the digits printed", "Molekel '$$'-per-center encoding for unsorted centers", "spin-labelling heuristics of the WFN reader"]
     for rid, title, wit in (
         ("R1", "orbital coefficients are permuted, then sign-scaled, with the pair from one convert_conventions call", "rows in the wrong place or with the wrong sign for any shell whose convention differs from the target's"),
@@ -205,6 +205,14 @@ def run(ctx):
 
     ctx.rule("R14", "Molekel: irreps, energies, occupations and coefficient columns of every orbital come back in their own slot (writer and reader helpers evaluated)", "beta orbitals get the irreps / energies of other orbitals, or a block of five is cut at the wrong column")
     check_molekel_mo_blocks(ctx, "R14")
+    from .centers import check_molden_mo_blocks
+
+    ctx.rule("R15", "Molden: energy, irrep, spin, occupation and coefficients of every orbital come back in their own slot (writer fragment and reader routine evaluated)", "occupations and energies swapped, the beta block written with alpha energies, or a spin label the reader does not take as alpha")
+    check_molden_mo_blocks(ctx, "R15")
+    from .centers import check_wfn_mo_blocks
+
+    ctx.rule("R16", "WFN: number, occupation, energy and coefficients of every orbital come back in their own slot (writer fragment and reader routine evaluated)", "occupation and orbital energy swapped in the MO header line, or a coefficient line cut at the wrong column")
+    check_wfn_mo_blocks(ctx, "R16")
     ctx.rule("R11", "segmentation before writing keeps every contraction, in order (evaluated)", "an SP / PS / general contraction is re-ordered or merged on the way to the file while the coefficient rows stay where they were")
     check_segmentation(ctx, "R11", "R11")
     ctx.rule("R9", "written coefficient rows are signs[r] x rows[permutation[r]] (symbolic evaluation of the writer expressions)", "signs are attached to the rows before they are moved (or the permutation is applied twice / on the wrong axis): coefficients of sign-flipped functions change sign or position")
